@@ -14,7 +14,35 @@ for pid in ids:
         d = os.path.join(root, pid, mk)
         patch = os.path.join(d, "patch.diff")
         demo = os.path.join(d, "demo.py")
-        if not (os.path.exists(patch) and os.path.exists(demo)):
+        if not os.path.isdir(d) or not os.path.exists(patch):
+            continue
+        if mk.startswith("r"):
+            # harmless refactoring: must apply and keep the suite green
+            sh("git -C %s checkout -- . && git -C %s clean -fdq" % (WT, WT))
+            a = sh("git -C %s apply %s" % (WT, patch))
+            t = sh("cd %s && /venv/bin/python -m pytest -q -p no:cacheprovider --timeout=900 -x 2>&1 | tail -3" % WT)
+            # every round-2 demo of this property must still pass on the refactored code
+            demos_ok = True
+            for other in sorted(os.listdir(os.path.join(root, pid))):
+                od = os.path.join(root, pid, other, "demo.py")
+                if os.path.exists(od):
+                    demos_ok = demos_ok and sh("GECKO_SRC=%s/src timeout 120 /venv/bin/python %s" % (WT, od)).returncode == 0
+            sh("git -C %s checkout -- . && git -C %s clean -fdq" % (WT, WT))
+            ok = a.returncode == 0 and " passed" in t.stdout and not __import__("re").search(r"\b\d+ failed", t.stdout) and demos_ok
+            print(pid, mk, "apply", a.returncode, "tests:", t.stdout.strip().splitlines()[-1] if t.stdout.strip() else "?", "demos-still-pass", demos_ok, "=>", "OK" if ok else "REJECT", flush=True)
+            if ok:
+                dest = "/verif/seeded/%s-%s" % (pid, mk)
+                os.makedirs(dest, exist_ok=True)
+                shutil.copy(patch, dest)
+                notes = open(os.path.join(d, "notes.md")).read() if os.path.exists(os.path.join(d, "notes.md")) else ""
+                open(os.path.join(dest, "notes.md"), "w").write(notes)
+                json.dump({"property": pid, "mutation": mk, "kind": "harmless-refactoring (must NOT raise an alarm)",
+                           "source": "independent sub-agent given only the property record and a scratch worktree",
+                           "why_behaviour_preserving": notes[:1500],
+                           "confirmed": {"date": time.strftime("%Y-%m-%d"), "ran": ["git apply patch.diff", "pytest -q -x: " + t.stdout.strip().splitlines()[-1], "all defect demos of this property still pass: %s" % demos_ok]},
+                           "caught_by": None}, open(os.path.join(dest, "meta.json"), "w"), indent=1)
+            continue
+        if not os.path.exists(demo):
             continue
         sh("git -C %s checkout -- . && git -C %s clean -fdq" % (WT, WT))
         env = "GECKO_SRC=%s/src" % WT
